@@ -2,13 +2,13 @@
 """Copy confirmed seeds from the agents' output area into /verif/seeded/<id>/ (patch.diff, demo.py, meta.json)."""
 import glob, json, os, shutil, sys
 SRC = '/tmp/seed_out'
-for cj in sorted(glob.glob(f'{SRC}/C*/m*/confirmed.json') + glob.glob(f'{SRC}/r2/C*/m*/confirmed.json') + glob.glob(f'{SRC}/r3/C*/m*/confirmed.json') + glob.glob(f'{SRC}/r4/C*/m*/confirmed.json') + glob.glob(f'{SRC}/r5/C*/m*/confirmed.json') + glob.glob(f'{SRC}/r6/C*/m*/confirmed.json') + glob.glob(f'{SRC}/r7/C*/m*/confirmed.json')):
+for cj in sorted(glob.glob(f'{SRC}/C*/m*/confirmed.json') + glob.glob(f'{SRC}/r2/C*/m*/confirmed.json') + glob.glob(f'{SRC}/r3/C*/m*/confirmed.json') + glob.glob(f'{SRC}/r4/C*/m*/confirmed.json') + glob.glob(f'{SRC}/r5/C*/m*/confirmed.json') + glob.glob(f'{SRC}/r6/C*/m*/confirmed.json') + glob.glob(f'{SRC}/r7/C*/m*/confirmed.json') + glob.glob(f'{SRC}/r8/C*/m*/confirmed.json')):
     d = os.path.dirname(cj)
     c = json.load(open(cj))
     if not c.get('confirmed'):
         print('skip (not confirmed):', d); continue
     parts = d.split('/')
-    rnd = {'r2': 2, 'r3': 3, 'r4': 4, 'r5': 5, 'r6': 6, 'r7': 7}.get(parts[-3], 1)
+    rnd = {'r2': 2, 'r3': 3, 'r4': 4, 'r5': 5, 'r6': 6, 'r7': 7, 'r8': 8}.get(parts[-3], 1)
     prop, m = parts[-2], parts[-1]
     sid = f'{prop}-r{rnd}-{m}'
     dst = f'/verif/seeded/{sid}'
